@@ -246,7 +246,7 @@ def validate_rows(ctx: Ctx, rule: str) -> None:
     ctx.touch(fref)
     loops = [l for l in ast.walk(fn.node) if isinstance(l, ast.For)]
     it = [ast.unparse(l.iter) for l in loops]
-    ok = it == ["addresses.keys()", "self.interfaces.values()"]
+    ok = len(it) == 2 and it[0] in ("addresses.keys()", "addresses", "addresses.items()") and it[1] == "self.interfaces.values()"
     if ok:
         il = loops[1]
         i = il.target.id
@@ -255,7 +255,12 @@ def validate_rows(ctx: Ctx, rule: str) -> None:
               and any(b.startswith("if ip not in own.network:") and "raise exceptions.TestError" in b for b in body)
               and any(b.startswith(f"ip = ipaddress.ip_interface('%s/%s' % ({i}.ip, self.mask_bit))") for b in body))
         al = loops[0]
-        ok = ok and any(ast.unparse(s).startswith("if addresses[key] not in own.network:") and "raise exceptions.TestError" in ast.unparse(s) for s in al.body)
+        # every predefined address: by key (addresses[<key>]) or by item (the value variable)
+        if isinstance(al.target, ast.Tuple) and len(al.target.elts) == 2 and it[0] == "addresses.items()":
+            subject = ast.unparse(al.target.elts[1])
+        else:
+            subject = f"addresses[{ast.unparse(al.target)}]"
+        ok = ok and any(ast.unparse(s).startswith(f"if {subject} not in own.network:") and "raise exceptions.TestError" in ast.unparse(s) for s in al.body)
     own = [s for s in fn.node.body if isinstance(s, ast.Assign) and ast.unparse(s.targets[0]) == "own"]
     ok = ok and len(own) == 1 and ast.unparse(own[0].value) == "ipaddress.ip_interface('%s/%s' % (self.net_ip, self.mask_bit))"
     keys = sorted(ast.unparse(s.targets[0]) for s in ast.walk(fn.node) if isinstance(s, ast.Assign) and ast.unparse(s.targets[0]).startswith("addresses["))
